@@ -24,7 +24,9 @@
 #include <pthread.h>
 
 /* ------------------------------------------------------------------ */
-enum { MODE_OFF, MODE_OWN, MODE_SCHED };
+enum { MODE_OFF, MODE_OWN, MODE_SCHED, MODE_EXT };
+static uintptr_t g_ext_lo, g_ext_hi;      /* MODE_EXT: the exact header the current call was given */
+static const char* g_prop = "C16";
 static int g_mode = MODE_OFF;
 static uint64_t g_hooks;                 /* hooked accesses seen */
 
@@ -97,6 +99,15 @@ static void vt_access(const void* p, size_t n, int is_write)
     if (g_mode == MODE_OFF || n == 0) return;
     uintptr_t a = (uintptr_t)p;
     g_hooks++;
+    if (g_mode == MODE_EXT) {
+        g_own_checked++;
+        if (on_stack(a)) return;
+        if (a >= g_ext_lo && a + n <= g_ext_hi) return;
+        if (!is_write && seg_class(a) == 1 && seg_class(a + n - 1) == 1) return;
+        for (int i = 0; i < g_nown; i++) if (g_ownhits[i].fn == g_own_fn && g_ownhits[i].write == is_write) return;
+        if (g_nown < 2048) { g_ownhits[g_nown].addr = a; g_ownhits[g_nown].write = is_write; g_ownhits[g_nown].cls = (int)n; g_ownhits[g_nown].fn = g_own_fn; g_nown++; }
+        return;
+    }
     if (g_mode == MODE_OWN) {
         g_own_checked++;
         if (is_write && a >= g_ro_lo && a < g_ro_hi) {
@@ -385,13 +396,63 @@ static void ownership_pass(void)
     printf("I\townership pass: %llu hooked accesses classified, %d outside {stack, passed objects, read-only segments}\n", (unsigned long long)g_own_checked, g_nown);
 }
 
+/* ------------------------------------------------------------------ */
+/* C03, instrumented: every access of every accessor must lie inside the */
+/* published header length - at header addresses of every residue mod 8  */
+/* (guard pages can only watch headers that end at a page boundary)      */
+/* ------------------------------------------------------------------ */
+static void ext_call(const char* fn, uint8_t* hdr, int len, int kind, int fmt, int fld, int path)
+{
+    uint8_t out8[8];
+    g_own_fn = fn; g_ext_lo = (uintptr_t)hdr; g_ext_hi = g_ext_lo + (uintptr_t)len;
+    g_mode = MODE_EXT;
+    switch (kind) {
+    case 0: (void)w_get((uint64_t)fmt, (uint64_t)fld, (uint64_t)path, hdr); break;
+    case 1: w_set((uint64_t)fmt, (uint64_t)fld, (uint64_t)path, hdr, 0x0123456789ABCDEFull); w_set((uint64_t)fmt, (uint64_t)fld, (uint64_t)path, hdr, ~0ull); break;
+    case 2: w_init((uint64_t)fmt, hdr); break;
+    case 3: (void)w_linit((uint64_t)fmt, hdr, 1); break;
+    case 4: { uint64_t id = w_enumv((uint64_t)fmt, (uint64_t)fld); (void)w_lget((uint64_t)fmt, hdr, id, 0, out8); (void)w_lset((uint64_t)fmt, hdr, id, 5); break; }
+    }
+    g_mode = MODE_OFF;
+    g_cnt.cases++; g_cnt.nontrivial++;
+}
+static void extent_pass(void)
+{
+    char nm[200];
+    for (int fmt = 0; fmt < g_nfmts; fmt++) {
+        const RowFmt* F = &g_fmts[fmt];
+        int len = (int)w_fact((uint64_t)fmt, 2, NULL);
+        for (int res = 0; res < 8; res++) {
+            uint8_t* hdr = g_arena + 8192 + 64 + res;      /* 8-aligned + residue */
+            memset(hdr - 64, 0x5A, 256);
+            for (int f = 0; f < F->nf; f++) for (int path = 0; path < 2; path++) {
+                if (path && !F->f[f].hasg && !F->f[f].hass) continue;
+                if (!path || F->f[f].hasg) { snprintf(nm, sizeof nm, "%s:%s", F->name, path ? F->f[f].getter : "GetField"); if (!path) snprintf(nm + strlen(nm), sizeof nm - strlen(nm), "(%s)", F->f[f].name); ext_call(strdup(nm), hdr, len, 0, fmt, f, path); }
+                if (!path || F->f[f].hass) { snprintf(nm, sizeof nm, "%s:%s", F->name, path ? F->f[f].setter : "SetField"); if (!path) snprintf(nm + strlen(nm), sizeof nm - strlen(nm), "(%s)", F->f[f].name); ext_call(strdup(nm), hdr, len, 1, fmt, f, path); }
+                if (!path && F->has_legacy) { snprintf(nm, sizeof nm, "%s:legacy get/set(%s)", F->name, F->f[f].name); ext_call(strdup(nm), hdr, len, 4, fmt, f, 0); }
+            }
+            if (F->has_init) { snprintf(nm, sizeof nm, "%s:Init", F->name); ext_call(strdup(nm), hdr, len, 2, fmt, 0, 0); }
+            if (F->has_linit) { snprintf(nm, sizeof nm, "%s:legacy-init", F->name); ext_call(strdup(nm), hdr, len, 3, fmt, 0, 0); }
+        }
+    }
+    g_cnt.transitions += g_own_checked;
+    for (int i = 0; i < g_nown; i++) {
+        char key[256];
+        snprintf(key, sizeof key, "%s access-outside-published-header (instrumented)", g_ownhits[i].fn);
+        violation("C03", key, "X:0", "%s of %d bytes at header%+ld (header is %ld bytes; header address %% 8 = %ld)", g_ownhits[i].write ? "write" : "read", g_ownhits[i].cls,
+                  (long)((intptr_t)g_ownhits[i].addr - (intptr_t)g_ext_lo) , (long)(g_ext_hi - g_ext_lo), (long)(g_ext_lo & 7));
+    }
+    printf("I\textent pass: %llu hooked accesses checked against the published header extents at 8 address residues, %d outside\n", (unsigned long long)g_own_checked, g_nown);
+}
+
 int main(int argc, char** argv)
 {
-    int thorough = 0; const char* rep = NULL; int only = -1;
+    int thorough = 0; int extent = 0; const char* rep = NULL; int only = -1;
     for (int i = 1; i < argc; i++) {
         if (!strcmp(argv[i], "--tier")) thorough = !strcmp(argv[++i], "thorough");
         else if (!strcmp(argv[i], "--case")) rep = argv[++i];
         else if (!strcmp(argv[i], "--driver")) only = atoi(argv[++i]);
+        else if (!strcmp(argv[i], "--extent")) extent = 1;
         else if (!strcmp(argv[i], "--slice")) i++;
         else if (!strcmp(argv[i], "--suite")) i++;
     }
@@ -402,6 +463,7 @@ int main(int argc, char** argv)
     g_arena = mmap(NULL, g_arena_size, PROT_READ | PROT_WRITE, MAP_PRIVATE | MAP_ANONYMOUS, -1, 0);
     for (int t = 0; t < MAXT; t++) g_thr[t].stack = mmap(NULL, STACKSZ, PROT_READ | PROT_WRITE, MAP_PRIVATE | MAP_ANONYMOUS, -1, 0);
     F_CAN = fidx("Can"); F_LIN = fidx("Lin"); F_TSCF = fidx("Tscf"); F_RVF = fidx("Rvf"); F_VSS = fidx("Vss"); F_CRF = fidx("Crf");
+    if (extent) { g_prop = "C03"; extent_pass(); sample("C03 instrumented: Avtp_Udp_SetEncapsulationSeqNo on a 4-byte header at an 8-aligned address: every hooked access must lie in [header, header+4)"); emit_counters("C03"); return 0; }
     if (rep) {
         /* S:<driver>:<threads>:<npts>:<choices> -> replay that schedule twice, insist on identical observations */
         g_verbose = 1;
